@@ -50,7 +50,7 @@ class Check(Prop):
     RULE = ("cases = (a) the shipped configuration with its files renamed so that the load order is a random permutation, against corpus "
             "and grammar-generated programs; (b) generated configurations (extends chains, overloads, keyword/default/rest parameters) "
             "rendered once with one file per class in declaration order and once with every class split over 1-3 files (methods "
-            "partitioned, `extends` in any one part) in a random file order, against call programs that call the configured methods with "
+            "partitioned, `extends` in any one part; declarations of one method stay in one file unless they are plain required positionals of pairwise different counts, which may be spread - then only accepted calls are compared - and are also enumerated in every order) in a random file order, against call programs that call the configured methods with "
             "accepted and rejected arguments. Oracle: identical `ti -i` output (plain sampled). Non-trivial = (a) the program's output is "
             "non-empty; (b) some class the program calls is split or the order of the files of the called classes changes; distinct by SHA-1.")
     ASSUMPTIONS = (
